@@ -238,7 +238,8 @@ Record cfg_ok (c : cfg) : Prop := {
   ok_hi : f_hashes c <> f_input c; ok_ho : f_hashes c <> f_output c; ok_he : f_hashes c <> f_error c;
   ok_dd : d_jobs c <> d_array c;
   ok_oo : arr_out_elem c = f_output c; ok_ee : arr_err_elem c = f_error c;
-  ok_sd : NoDash (arr_suffix c); ok_sh : hexstr (arr_suffix c) = false
+  ok_sd : NoDash (arr_suffix c); ok_sh : hexstr (arr_suffix c) = false;
+  ok_stage : stage_input c = Overwrite
 }.
 
 Lemma shipped_ok : cfg_ok shipped.
